@@ -616,12 +616,8 @@ func isSuggest(targetT base.T, sig base.Sig) bool {
 		}
 	}
 
-	if isStaticTarget != sig.IsStatic {
-		return false
-	}
-
 	if sig.Class == objectClass {
-		return true
+		return isStaticTarget == sig.IsStatic
 	}
 
 	return isParentClass(sig, targetT.GetFrame(), objectClass, isStaticTarget, false, false)
@@ -658,8 +654,9 @@ func isParentClassVisited(
 		return false
 	}
 
-	if sig.IsStatic != isStaticTarget {
-		return false
+	// extend: the class answers the instance methods of the module (and of what it includes)
+	if isExtend {
+		isStaticTarget = false
 	}
 
 	if sig.Method == "new" {
@@ -671,7 +668,7 @@ func isParentClassVisited(
 	}
 
 	if sig.Frame == frame && sig.Class == class {
-		return true
+		return sig.IsStatic == isStaticTarget
 	}
 
 	classNode := base.ClassNode{Frame: frame, Class: class}
